@@ -219,6 +219,9 @@ def register(M):
         g = generic_args(mv.ty if isinstance(mv, Adt) else '')
         inner_ty = g[0] if g else '?'
         guard = Adt('MutexGuard<%s>' % inner_ty, {(None, 0): Ref(cell, path + (('f', None, 0, inner_ty),))})
+        if 'sync::Mutex' in (info.get('text') or '') or 'sync::poison::' in (info.get('text') or ''):
+            # std::sync::Mutex: blocking lock, LockResult<MutexGuard> (never poisoned, never contended: one thread)
+            return Adt(dty or 'Result<MutexGuard, PoisonError>', {(0, 0): guard}, 0)
         M.log(ex, 'lock', what=M.recv_name(ex, Ref(cell, path)))
         return M.ready_future(('lock',), value=guard, pending=ex.env.get('lock_pending', 0))
 
